@@ -58,9 +58,9 @@ fn is_document_marker_like(s: &str) -> bool {
 /// scalar loses a leading byte-order mark, which every string entry point strips).
 /// `s` must not be empty.
 fn has_edge_blank_or_leading_bom(s: &str) -> bool {
-    let bytes = s.as_bytes();
-    bytes[0].is_ascii_whitespace()
-        || bytes[bytes.len() - 1].is_ascii_whitespace()
+    // Any Unicode white space counts: the scalar parsers trim with `str::trim`.
+    s.starts_with(char::is_whitespace)
+        || s.ends_with(char::is_whitespace)
         || s.starts_with('\u{FEFF}')
 }
 
@@ -145,10 +145,12 @@ fn is_ambiguous_value(s: &str, yaml_12: bool) -> bool {
 
     // Quote non-YAML-1.2 float spellings too (e.g. "nan", "inf").
     // This preserves round-tripping of strings and matches tests.
-    s.eq_ignore_ascii_case("nan")
-        || s.eq_ignore_ascii_case("inf")
-        || s.eq_ignore_ascii_case("+inf")
-        || s.eq_ignore_ascii_case("-inf")
+    // The float parser falls back to `str::parse`, which also takes `infinity` and a sign
+    // on every spelling.
+    let unsigned = s.strip_prefix(['+', '-']).unwrap_or(s);
+    unsigned.eq_ignore_ascii_case("nan")
+        || unsigned.eq_ignore_ascii_case("inf")
+        || unsigned.eq_ignore_ascii_case("infinity")
 }
 
 /// Controls quoting behavior of the serializer.
